@@ -988,12 +988,12 @@ func (iter *wrapImproperIterator) Next() bool {
 			// Whitespace either fail the test or were removed earlier,
 			// so there is no need to take special care with the definition
 			// of "consecutive".
-			if FlexContainerT.IsInstance(iter.box) {
-				// The display value of a flex item must be "blockified", see
-				// https://www.w3.org/TR/css-flexbox-1/#flex-items
-			} else {
-				iter.improper = append(iter.improper, child)
-			}
+			// TODO: The display value of a flex item should be "blockified", see
+			// https://www.w3.org/TR/css-flexbox-1/#flex-items
+			// Meanwhile, table-internal children of a flex container are wrapped
+			// in an anonymous table (which is the flex item), as in a grid container,
+			// instead of being dropped with their content.
+			iter.improper = append(iter.improper, child)
 		}
 	}
 
